@@ -210,7 +210,7 @@ def _store(D):
         ctx.sample = {'family': 'store', 'ops': ['create'], 'individuals': 0}
         return core.result(ctx, sim)
     site = 'SqliteDataStore'
-    nops = 1 + D.dec('cfg', 'nops', 20)
+    nops = 1 + D.size('cfg', 'nops', 20)
     pool = []
     model = {}
     kinds = []
@@ -235,13 +235,13 @@ def _store(D):
                 # a later session continues on the file: a new Problem with a store in the default mode "write", which loads
                 # the stored individuals into problem.individuals; in a new interpreter the id counter starts again, so
                 # designs recorded from now on may repeat stored ids (synchronising an id again replaces its row)
+                if D.dec('work', ('newproc', o), 2) == 1:
+                    Individual.counter = 0          # a new interpreter: the id counter starts again, then the file is read
+                    ctx.probe('reopened_in_new_process')
                 loaded = W.reopen_session(w, path)
                 p = w.problem
                 store = p.data_store
                 pool = list(loaded)
-                if D.dec('work', ('newproc', o), 2) == 1:
-                    Individual.counter = 0
-                    ctx.probe('reopened_in_new_process')
                 ctx.probe('reopened_session')
                 if definition_of(p) != definition:
                     ctx.violation('problem_definition', site, 'a session that re-opens the file reads the definition %r, the store '
@@ -249,6 +249,13 @@ def _store(D):
             elif kind == 'new':
                 ind = Individual(W.gen_vector(w, D, 'work', ('v', o)))
                 k = ('o', o)
+                if ind.id in model:
+                    # the library itself gave a new design the id of a stored one: its row will replace that design's row, and
+                    # the store no longer holds the final data of every recorded individual
+                    ctx.violation('id_reused', site, 'a design created after the file was re-opened received id %d, which a stored '
+                                  'design already has (stored ids %r): synchronising it replaces that design\'s row'
+                                  % (ind.id, sorted(model)[:8]))
+                    break
                 if pool and D.dec('work', k + ('dupid',), 8) == 1:
                     # repeated id: this record supersedes an earlier one that is still listed in problem.individuals
                     ind.id = pool[D.dec('work', k + ('dupi',), len(pool))].id
@@ -368,8 +375,8 @@ def _run(D):
         synced.setdefault(individual.id, {})[id(individual)] = individual
         return real_sync(individual)
     store.sync_individual = spy_sync
-    N = 2 + D.dec('cfg', 'N', 7)
-    G = 1 + D.dec('cfg', 'G', 4)
+    N = 2 + D.size('cfg', 'N', 7)
+    G = 1 + D.size('cfg', 'G', 4)
     site = 'run of ' + kind
     try:
         with W.quiet():
